@@ -525,7 +525,7 @@ def check(gens):
 
 
 def n_cases(tier):
-    return 30000 if tier == "quick" else 400000
+    return 20000 if tier == "quick" else 250000
 
 
 def cases(tier, seed, part, nparts):
